@@ -1,5 +1,5 @@
 From Coq Require Import ExtrOcamlBasic.
-From JV Require Import Model.ExprAst Model.ExprPrim Spec.ExprSpec Model.ExprTarget Model.ExprFold Model.ExprConcrete Model.ExprParser Model.ExprUnparse.
+From JV Require Import Model.ExprAst Model.ExprPrim Spec.ExprSpec Model.ExprTarget Model.ExprFold Model.ExprConcrete Model.ExprParser Model.ExprUnparse Model.ExprStmtParser.
 Extraction "expr_x.ml" ExprConcrete.mk_cfg ExprConcrete.run_spec ExprConcrete.run_py ExprConcrete.run_render
   ExprConcrete.run_spec_text ExprConcrete.run_gen ExprConcrete.run_gen_expr ExprConcrete.run_fold
-  ExprSpec.depth ExprPrim.filter_kind ExprSpec.subst ExprPrim.int_str ExprParser.parse_expr ExprParser.parse_print ExprUnparse.unparse ExprUnparse.wf.
+  ExprSpec.depth ExprPrim.filter_kind ExprSpec.subst ExprPrim.int_str ExprParser.parse_expr ExprParser.parse_print ExprUnparse.unparse ExprUnparse.wf ExprStmtParser.parse.
